@@ -22,6 +22,7 @@
   compared with `readEnvelope` on every generated call, not proved (DESIGN §4.6).
 -/
 import Upnp.Lemmas.C06Main
+import Upnp.Lemmas.C06Url
 import Upnp.Gen.C06Types
 namespace Upnp.C06
 open Upnp.Gen
@@ -70,6 +71,30 @@ theorem arg_text_decodes (O : Oracles) (strict : Bool) (d : VarDecl) (v : PyVal)
       ∧ decodesTo O d.row t v = true := by
   obtain ⟨t, h1, h2⟩ := roundtrip O d.row v hrow (accepted_isInstance O strict d v hacc) hO
   exact ⟨t, h1, escape_lossless t, h2⟩
+
+/-! ### URL -/
+
+/-- a control URL written as an absolute path is resolved to the device URL's scheme and authority
+    followed by that path, and the `Host` header the model sends (netloc of the resolved URL) is the
+    device URL's authority — for every device URL with a scheme and every plain absolute path -/
+theorem control_url_abs_path (base sch r : Str) (hb : schemeOf base = some (sch, r))
+    (c : Char) (t : Str) (hc : c ≠ '/') (hp : plainPath ('/' :: c :: t) = true) :
+    urljoin base ('/' :: c :: t) = some (sch ++ "://".toList ++ netloc base ++ '/' :: c :: t)
+    ∧ netloc (sch ++ "://".toList ++ netloc base ++ '/' :: c :: t) = netloc base :=
+  urljoin_abs_path base sch r _ hb c t rfl hc hp
+
+/-- an absolute control URL is used as it is -/
+theorem control_url_absolute (base ref : Str) (hb : (schemeOf base).isSome = true)
+    (hr : (schemeOf ref).isSome = true) : urljoin base ref = some ref := by
+  unfold urljoin
+  cases h : schemeOf base with
+  | none => simp [h] at hb
+  | some p =>
+    have hne : ref.isEmpty = false := by
+      cases ref with
+      | nil => simp [schemeOf] at hr
+      | cons _ _ => rfl
+    simp [hne, hr]
 
 /-! ### validation -/
 
